@@ -88,13 +88,15 @@ materials.setMaterialNamespaceOrder(["armi.reactor.converters.tests.test_axialEx
 
 B = Bounded(
     rule="case = (assembly descriptor, target-component seed, setFuel, changer reuse, sequence of <= 4 ops over prescribed growth-fraction "
-    "vectors {uniform, per block, per component, fuel only, identity, subset of components, +-30%}, temperature fields {isothermal, "
+    "vectors {uniform, per block, per component, fuel only, identity, subset of components, +-30%, fuel-vs-target}, explicit target designations and re-designations, temperature fields {isothermal, "
     "linear gradient, random} and `inverse of the previous op`); all clauses evaluated after every op; distinct = distinct descriptor; "
     "non-trivial = at least one component fraction != 1",
     bound="quick: armi's 4 axial-expansion test assemblies + 6 designs of the detailedAxialExpansion reactor + 150 generated assemblies "
-    "(1-7 blocks + dummy, heights 3-60 cm, 0-1 missing component, thinner/annular/fewer pins, 5 materials, manual targets) x 6 sequences of "
-    "<= 4 ops (~960 cases, ~3300 changes); 60 invalid-input cases. thorough: 2000 generated assemblies x 8 sequences (~16000 cases). "
-    "Fractions 0.7-1.3, temperatures 25-700 C; hex pin assemblies with a top dummy block only.",
+    "(1-7 blocks + dummy, heights 3-60 cm, 0-1 missing component, thinner/annular/fewer pins, 5 materials, manual targets) x (6 sequences of "
+    "<= 4 ops + 3 sequences with explicit target designation: FUEL blocks with a non-fuel target / non-fuel blocks / both, setFuel True "
+    "and False, fuel and target growing differently, designation changed or removed between changes) = 1440 cases, ~5300 changes; 60 "
+    "invalid-input cases. thorough: 2000 generated assemblies x (8 + 6) sequences (~28000 cases). Fractions 0.7-1.3, temperatures 25-700 C; "
+    "hex pin assemblies with a top dummy block only.",
 )
 counts = {}
 B.extra["violation_counts"] = counts
